@@ -292,8 +292,12 @@ class TimeSensitiveDensityEstimator(BaseEstimator):
         self.d_method = validate_string(
             d_method, "d_method", choices={"fractal", "embedding"}
         )
-        self.ls_time = validate_positive_float(ls_time, "ls_time", optional=True)
-        self.ls_time_factor = validate_positive_float(ls_time_factor, "ls_time_factor")
+        self.ls_time = validate_positive_float(
+            ls_time, "ls_time", optional=True, allow_inf=True
+        )
+        self.ls_time_factor = validate_positive_float(
+            ls_time_factor, "ls_time_factor", allow_inf=True
+        )
         self._save_intermediate_ls_times = _save_intermediate_ls_times
         self.normalize_per_time_point = normalize_per_time_point
         self.transform = None
